@@ -11,13 +11,43 @@
     The "consequently" sentence is [C02_statement]. *)
 From stdpp Require Import gmap list numbers sorting.
 From Coq Require Import ZArith NArith.
-From Verif Require Import Tx.Store Tx.Ledger Tx.Hist Tx.Inv Tx.Refine.
+From Verif Require Import Tx.Store Tx.Ledger Tx.Hist Tx.Inv Tx.Refine Tx.RefineAll Tx.Corollaries Tx.InvRollback.
 Local Open Scope Z_scope.
 
-Definition same_facts (F1 F2 : facts) : Prop :=
-  f_conf F1 = f_conf F2 ∧ f_unconf F1 = f_unconf F2 ∧ f_leases F1 = f_leases F2.
+(** Blocks disconnected from height h (first sentence, first half). *)
+Theorem C02_disconnect_semantics : ∀ U F h,
+  (∀ t hh bh, f_conf (spec_disconnect U F h) !! t = Some (hh, bh) ↔ f_conf F !! t = Some (hh, bh) ∧ hh < h) ∧
+  (∀ t, t ∈ f_unconf (spec_disconnect U F h) ↔
+        (t ∈ f_unconf F ∨ ∃ hh bh, f_conf F !! t = Some (hh, bh) ∧ h <= hh ∧ is_coinbase U t = false) ∧
+        ¬ depends_on U (disc_F1 U F h) (disc_cb U F h) t) ∧
+  f_leases (spec_disconnect U F h) = f_leases F.
+Proof. exact spec_disconnect_char. Qed.
+Print Assumptions C02_disconnect_semantics.
 
-Definition C02_statement : Prop :=
+(** A transaction confirms (first sentence, second half): exactly the
+    conflicting unconfirmed transactions and their unconfirmed descendants
+    disappear, unrelated ones stay. *)
+Theorem C02_confirm_semantics : ∀ U F t b,
+  f_conf F !! t = None →
+  let F1 := {| f_conf := <[t := b]> (f_conf F); f_unconf := f_unconf F ∖ {[t]};
+               f_leases := foldl (fun m op => delete op m) (f_leases F) (tx_ins U t) |} in
+  let cf := filter (fun u => conflicts U t u) (elements (f_unconf F1)) in
+  f_conf (spec_confirm U F t b) = <[t := b]> (f_conf F) ∧
+  (∀ u, u ∈ f_unconf (spec_confirm U F t b) ↔ u ∈ f_unconf F ∧ u ≠ t ∧ ¬ depends_on U F1 cf u) ∧
+  (∀ op, f_leases (spec_confirm U F t b) !! op =
+         if bool_decide (op ∈ tx_ins U t) then None else f_leases F !! op).
+Proof. exact spec_confirm_char. Qed.
+Print Assumptions C02_confirm_semantics.
+
+(** The store follows these steps on every chain-consistent history. *)
+Theorem C02_store_follows_ledger_steps : refinement_statement.
+Proof. exact refinement. Qed.
+Print Assumptions C02_store_follows_ledger_steps.
+
+(** Consequently: any two chain-consistent histories that end with the same
+    facts report identical balances (every minconf, every admissible sync
+    height, every instant), spendable outputs and transaction details. *)
+Theorem C02_same_facts_same_observables :
   ∀ (U : universe) (h1 h2 : list event),
     wf_universe U = true → chain_consistent U h1 = true → chain_consistent U h2 = true →
     same_facts (fs (spec_run U h1)) (fs (spec_run U h2)) →
@@ -27,29 +57,24 @@ Definition C02_statement : Prop :=
        balance U s1 minconf sync now = balance U s2 minconf sync now) ∧
     (∀ now, unspent_outputs U s1 now ≡ₚ unspent_outputs U s2 now) ∧
     (∀ t, tx_details U s1 t = tx_details U s2 t).
+Proof. exact c02_holds. Qed.
+Print Assumptions C02_same_facts_same_observables.
 
-Lemma spec_balance_same U F1 F2 mc sy now :
-  same_facts F1 F2 → spec_balance U F1 mc sy now = spec_balance U F2 mc sy now.
-Proof.
-  intros (Hc & Hu & Hl). destruct F1, F2; simpl in *; subst. reflexivity.
-Qed.
-
-Theorem C02_from_refinement :
-  refinement_statement → balance_statement → utxos_statement → details_statement → C02_statement.
-Proof.
-  intros Href Hbal Hutx Hdet U h1 h2 Hwf Hc1 Hc2 Hsame.
-  destruct (Href U h1 Hwf Hc1) as [HI1 _]. destruct (Href U h2 Hwf Hc2) as [HI2 _].
-  assert (HF : fs (spec_run U h1) = fs (spec_run U h2)).
-  { destruct Hsame as (Hc & Hu & Hl).
-    destruct (fs (spec_run U h1)), (fs (spec_run U h2)); simpl in *; subst; reflexivity. }
-  repeat split.
-  - intros minconf sync now Hmc Hsync.
-    rewrite (Hbal U _ _ minconf sync now Hwf HI1 Hmc Hsync).
-    rewrite HF in Hsync.
-    rewrite (Hbal U _ _ minconf sync now Hwf HI2 Hmc Hsync).
-    by rewrite HF.
-  - intros now. rewrite (Hutx U _ _ now Hwf HI1), (Hutx U _ _ now Hwf HI2). by rewrite HF.
-  - intros t. destruct (Hdet U _ _ t Hwf HI1) as (-> & _). destruct (Hdet U _ _ t Hwf HI2) as (-> & _).
-    by rewrite HF.
-Qed.
-Print Assumptions C02_from_refinement.
+(** Non-vacuity: a history with a rollback and reconnection in another block
+    and the direct construction of its final facts. *)
+Definition mk (id : N) (ins : list (N * N)) (outs : list Z) (creds : list (N * bool)) (cb : bool) : tx :=
+  {| t_id := id; t_ins := ins; t_outs := outs; t_creds := creds; t_coinbase := cb |}.
+Definition ex_U : universe := universe_of_list
+  [ mk 2%N [(1, 0)]%N [5000; 7000] [(0, false); (1, true)]%N false;
+    mk 4%N [(2, 0)]%N [4000] [(0, false)]%N false;
+    mk 6%N [(2, 0)]%N [3000] [] false ].
+Definition ex_h1 : list event :=
+  [ Seen 2%N; Seen 4%N; Confirm 2%N 10 1%N 0; Confirm 4%N 11 2%N 0; Disconnect 10;
+    Confirm 2%N 10 3%N 0; Confirm 6%N 10 3%N 0 ].
+Definition ex_h2 : list event := [ Confirm 2%N 10 3%N 0; Confirm 6%N 10 3%N 0 ].
+Example C02_nonvacuous :
+  wf_universe ex_U = true ∧ chain_consistent ex_U ex_h1 = true ∧ chain_consistent ex_U ex_h2 = true ∧
+  f_conf (fs (spec_run ex_U ex_h1)) = f_conf (fs (spec_run ex_U ex_h2)) ∧
+  f_unconf (fs (spec_run ex_U ex_h1)) = f_unconf (fs (spec_run ex_U ex_h2)) ∧
+  balance ex_U (st (run ex_U ex_h1)) 1 10 0 = 7000.
+Proof. vm_compute. repeat split. Qed.
